@@ -588,6 +588,27 @@ impl<'a> Run<'a> {
                     }
                 }
                 let deliv0: u32 = self.delivered_count.iter().sum();
+                // every other length goes through the plain entry point (the one the gateway uses
+                // for its own replies); it returns no session data, so it is judged by what the
+                // clients can decrypt afterwards
+                if len % 2 == 1 {
+                    let server = &mut self.server;
+                    let r = no_panic("handle_outgoing_packet", || server.handle_outgoing_packet(Packet::copy_from(&payload[..]), addr(a)))?;
+                    // None = dropped or queued behind a handshake: the plain entry point does not tell
+                    self.out_payloads.insert(payload.clone(), (a, true));
+                    self.obs.label(if r.is_some() { "out-plain-accepted" } else { "out-plain-none" });
+                    if let Some(pkt) = r.filter(|_| !lose) {
+                        let bytes = wg_bytes(pkt);
+                        let mut work = VecDeque::new();
+                        self.deliver(a, &bytes, &mut work)?;
+                        self.pump(work)?;
+                    }
+                    let delivered = self.delivered_count.iter().sum::<u32>() > deliv0;
+                    if delivered && lost_any {
+                        self.obs.label("flow-resumed-out");
+                    }
+                    return Ok(());
+                }
                 let server = &mut self.server;
                 let r = no_panic("handle_outgoing_packet_with_session", || {
                     server.handle_outgoing_packet_with_session(Packet::copy_from(&payload[..]), addr(a))
